@@ -476,6 +476,7 @@ class Unit(object):
         self.clauses = []           # dict(fn, section, label, props, text)
         self.items = []             # extracted non-fn items
         self.cells = {}             # type -> [fields]
+        self.lost_aids = []
         self.rules = set(['R1', 'R2', 'ATTR', 'R4', 'R5', 'R6', 'R10', 'R11', 'R14', 'R15', 'R17'])
         self.unit_props = []
         self.lemmas = []
@@ -1039,7 +1040,9 @@ def emit_block(unit, loc, dlines, tmpl_where):
         rx = re.compile(r'\s*'.join(re.escape(t) for t in a.split()))
         hits = list(rx.finditer(blk))
         if not hits:
-            raise AnchorLost('%s: subst text `%s` not found in block' % (name, a))
+            # nothing to rename: the block no longer mentions this expression (logged; the contract decides)
+            unit.lost_aids.append({'fn': name, 'aid': 'renaming of `%s` (not present in the block any more)' % a})
+            continue
         for h in reversed(hits):
             pad = '\n' * blk[h.start():h.end()].count('\n')
             blk = blk[:h.start()] + b + pad + blk[h.end():]
@@ -1128,6 +1131,19 @@ def emit_fn_text(unit, rel, path, fn_id, text, line0, end_line, dlines, tmpl_whe
             sections.append(cur)
         else:
             raise Unsupported('%s: unknown fn directive %r' % (tmpl_where, s))
+
+    # A failing proof aid (unlabelled invariant / hint) or a failing safety site leaves every postcondition of
+    # the function unproved (the verifier assumes the failed fact afterwards): such obligations carry the
+    # union of the function's property tags; a labelled clause with explicit tags keeps exactly its own.
+    fn_props = list(props)
+    for sec in sections:
+        for cl in (sec[2] if len(sec) > 2 and isinstance(sec[2], list) else []):
+            mm_ = re.search(r'//#\s*([A-Z0-9,]+):[\w.\-]+\s*$', cl)
+            if mm_:
+                for q in mm_.group(1).split(','):
+                    if q not in fn_props:
+                        fn_props.append(q)
+    props = fn_props
 
     # ---- rewrite
     ctx = '%s :: %s' % (rel, ' :: '.join(path))
@@ -1273,15 +1289,19 @@ def emit_fn_text(unit, rel, path, fn_id, text, line0, end_line, dlines, tmpl_whe
         if kind == 'loop':
             if loops is None:
                 loops = _loop_headers(body, bmask)
+            # Proof aids (loop invariants, hints) whose place in the body no longer exists are left out and the
+            # function is verified without them: they are never part of what is claimed, only of how it is proved.
             if sec[1] >= len(loops):
-                raise AnchorLost('%s: loop %d not found (function has %d loops)' % (fn_id, sec[1], len(loops)))
+                unit.lost_aids.append({'fn': fn_id, 'aid': 'invariants of loop %d (function has %d loops)' % (sec[1], len(loops))})
+                continue
             inserts.append((loops[sec[1]][1], 'invariant', sec[2], 'loop%d' % sec[1]))
-        elif kind == 'before':
-            mm = _find_anchor(body, bmask, sec[1][0], sec[1][1])
-            inserts.append((mm.start(), 'hint', sec[2], sec[1][0]))
-        elif kind == 'after':
-            mm = _find_anchor(body, bmask, sec[1][0], sec[1][1])
-            inserts.append((mm.end(), 'hint', sec[2], sec[1][0]))
+        elif kind in ('before', 'after'):
+            try:
+                mm = _find_anchor(body, bmask, sec[1][0], sec[1][1])
+            except AnchorLost as e:
+                unit.lost_aids.append({'fn': fn_id, 'aid': 'hint %s `%s`%s' % (kind, sec[1][0], (' #%d' % sec[1][1]) if sec[1][1] else '')})
+                continue
+            inserts.append((mm.start() if kind == 'before' else mm.end(), 'hint', sec[2], sec[1][0]))
         elif kind == 'atstart':
             inserts.append((1, 'hint', sec[2], 'start'))
         elif kind == 'atend':
@@ -1289,6 +1309,8 @@ def emit_fn_text(unit, rel, path, fn_id, text, line0, end_line, dlines, tmpl_whe
     for sec in sections:
         if sec[0] == 'loopiter':
             # Verus syntax for naming the ghost iterator of a for loop: `for x in it: expr`
+            if loops is None or sec[1][0] >= len(loops):
+                raise AnchorLost('%s: for-loop %d not found' % (fn_id, sec[1][0]))
             kw = loops[sec[1][0]][0]
             mm = re.compile(r'\bin\s').search(body, kw)
             if not mm or mm.start() > loops[sec[1][0]][1]:
